@@ -58,7 +58,11 @@ static void array_op(int h, int argc, char **a) {
     else if (!strcmp(op, "remove_last")) { s = cc_array_sized_remove_last(ar, obuf); printf("remove_last %s", vf_stat(s)); if (s == CC_OK) printf(" %llu", dec(obuf)); }
     else if (!strcmp(op, "remove_all")) { cc_array_sized_remove_all(ar); printf("remove_all OK"); }
     else if (!strcmp(op, "get_at")) {   /* through peek: the pointer-returning accessor */
-        uint8_t *p = NULL; s = cc_array_sized_peek(ar, A1, &p); printf("get_at %s", vf_stat(s)); if (s == CC_OK) printf(" %llu", dec(p)); }
+        uint8_t *p = NULL; s = cc_array_sized_peek(ar, A1, &p);
+        /* and the copying accessor: it must agree with peek in status and value */
+        memset(obuf, 0xEE, 16); enum cc_stat s2 = cc_array_sized_get_at(ar, A1, obuf);
+        if (s2 != s || (s == CC_OK && memcmp(obuf, p, L) != 0)) vf_die("get_at and peek disagree");
+        printf("get_at %s", vf_stat(s)); if (s == CC_OK) printf(" %llu", dec(p)); }
     else if (!strcmp(op, "get_last")) { s = cc_array_sized_get_last(ar, obuf); printf("get_last %s", vf_stat(s)); if (s == CC_OK) printf(" %llu", dec(obuf)); }
     else if (!strcmp(op, "index_of")) { size_t ix = 777; s = cc_array_sized_index_of(ar, enc(ebuf, A1), &ix); printf("index_of %s", vf_stat(s)); if (s == CC_OK) printf(" %zu", ix); }
     else if (!strcmp(op, "contains")) { printf("contains OK %zu", cc_array_sized_contains(ar, enc(ebuf, A1))); }
